@@ -52,6 +52,57 @@ func runC07(c *fw.Ctx) {
 						trace = append(trace, "clear "+t)
 					}
 				}
+				// "after replication to another": a second replica receives the first one's broadcasts in order,
+				// reversed, shuffled, or only the first half followed by a full-state exchange; it must answer like the model too
+				r2 := kit.NewReplica(2)
+				bs := r.Drain()
+				mode := []string{"in-order", "reversed", "shuffled", "half+full-state"}[h%4]
+				switch h % 4 {
+				case 0:
+					for _, b := range bs {
+						r2.Deliver(b)
+					}
+				case 1:
+					for i := len(bs) - 1; i >= 0; i-- {
+						r2.Deliver(bs[i])
+					}
+				case 2:
+					for _, i := range rg.Perm(len(bs)) {
+						r2.Deliver(bs[i])
+						if rg.Intn(3) == 0 {
+							r2.Deliver(bs[rg.Intn(len(bs))])
+						}
+					}
+				case 3:
+					for _, b := range bs[:len(bs)/2] {
+						r2.Deliver(b)
+					}
+					r2.S.Distributor().MergeRemoteState(r.S.Distributor().LocalState(false), false)
+				}
+				for _, f := range filters[:len(filters):len(filters)] {
+					if (len(f)+h)%9 != 0 {
+						continue // a ninth of the filters on the replica
+					}
+					msgs, _ := r2.S.Topics().Get([]byte("mp/" + f))
+					got := []string{}
+					for _, x := range msgs {
+						got = append(got, strings.TrimPrefix(string(x.Publish.Topic), "mp/")+"="+string(x.Publish.Payload))
+					}
+					want := []string{}
+					for t, v := range m {
+						if model.Match(f, t) {
+							want = append(want, t+"="+v)
+						}
+					}
+					sort.Strings(got)
+					sort.Strings(want)
+					c.Observe("replica_lookups", 1)
+					if strings.Join(got, ";") != strings.Join(want, ";") {
+						c.Violation("store-replica:"+mode, fmt.Sprintf("retained store after %v, replicated %s to a second node: there Get(%q) = %q, want %q", trace, mode, f, got, want),
+							map[string]interface{}{"history": trace, "replication": mode, "filter": f, "observed": got, "expected": want})
+						break
+					}
+				}
 				nontrivial := 0
 				for _, f := range filters {
 					msgs, err := r.S.Topics().Get([]byte("mp/" + f))
